@@ -217,7 +217,8 @@ def check_lik(ctx, variant, ssx, ssy, got, W=None, penalty=None, gamma=None, whe
                 if once is not None:
                     once['go_indef'] = True
             return
-        ok = _same(got, ref)
+        # log-determinants of S and (n-1)S agree only up to rounding amplified by the condition number
+        ok = _same(got, ref, atol=1e-8 + 1e-12 * n * np.linalg.cond(ref_moments(ssx)[1]))
     else:
         ref = ref_misspec(ssx, ssy, gamma, variant)
         ok = _same(got, ref)
@@ -333,7 +334,11 @@ def run_lik(ctx, case):
     for rep in range(case['reps']):
         d = int(rs.randint(1, 6))
         n = int(rs.randint(d + 5, 121))
-        ssx = rs.randn(n, d) @ (rs.randn(d, d) + 2 * np.eye(d)) + rs.randn(d) * 3
+        while True:                                   # well-conditioned mixing: the statement is about non-singular covariances
+            A = rs.randn(d, d) + 2 * np.eye(d)
+            if np.linalg.cond(A) < 30:
+                break
+        ssx = rs.randn(n, d) @ A + rs.randn(d) * 3
         mu = ssx.mean(0)
         sd = ssx.std(0)
         for far in (0.1, 1.0, 3.0, 12.0, 100.0):
